@@ -298,7 +298,7 @@ func c01Lengths(c *Ctx) {
 }
 
 func c01Lists(c *Ctx) {
-	n := c.N(400, 10000)
+	n := c.N(1200, 40000)
 	nlay := c.N(8, 16)
 	for i := 0; i < n; i++ {
 		c.Case(int64(i), func(k *K) {
